@@ -69,6 +69,9 @@ func (a *Agent) TeamserverTaskPrepare(Command string, Console func(AgentID strin
 
 	case "task":
 		if len(Commands) > 1 {
+			a.JobsMtx.Lock()
+			defer a.JobsMtx.Unlock()
+
 			switch Commands[1] {
 
 			case "list":
